@@ -77,8 +77,20 @@ def rand_name(r, n=None):
 
 
 def rand_wild(r, names):
-    k = r.below(10)
-    if k < 4 and names:
+    k = r.below(12)
+    if k >= 10 and names:
+        # wildcards longer than a name can be: `*` also stands for the empty run, so they can still select real names
+        base = r.choice(names)
+        style = r.choice([0, 1, 2, 3])
+        if style == 0:
+            w = b'*'.join(bytes([c]) for c in base) + b'*'                    # A*B*C*
+        elif style == 1:
+            w = b'*' * (8 - min(len(base), 7)) + base + b'*'                    # ****NAME*
+        elif style == 2:
+            w = base[:1] + b'**' + base[1:] + b'***'
+        else:
+            w = b'*' + base + b'*' * r.range(7, 10)
+    elif k < 4 and names:
         base = bytearray(r.choice(names))
         for _ in range(r.below(3)):
             p = r.below(len(base))
